@@ -179,7 +179,7 @@ func runEffects(fns []*ssa.Function, cfg effectConfig) []effectFinding {
 			case *ssa.MapUpdate:
 				reportMapWrite(&out, fn, in, x.Map, cfg, inOnce)
 			case ssa.CallInstruction:
-				if n := callName(x.Common()); isContainerMutator(n) && len(x.Common().Args) > 0 {
+				if n := callName(x.Common()); isContainerMutator(n) && len(x.Common().Args) > 0 && !isPureCounterBump(x, n) {
 					recv := x.Common().Args[0]
 					o, g, _ := ownerOfValue(recv)
 					fv := rawFreeVarRoot(recv)
@@ -416,4 +416,19 @@ func isContainerMutator(name string) bool {
 		return true
 	}
 	return false
+}
+
+// isPureCounterBump: atomic Add whose result is discarded (a metrics counter): race-free,
+// and nothing in this request can observe what other requests did to it.
+func isPureCounterBump(ci ssa.CallInstruction, name string) bool {
+	if !strings.HasPrefix(name, "(*sync/atomic.") || !strings.HasSuffix(name, ").Add") {
+		if !(strings.HasPrefix(name, "sync/atomic.Add")) {
+			return false
+		}
+	}
+	v, ok := ci.(ssa.Value)
+	if !ok {
+		return true
+	}
+	return len(referrers(v)) == 0
 }
